@@ -107,7 +107,7 @@ def systematic():
                     leaks.append(dict(where, what="receiver changed by the call"))
                 for o, s_, al in snaps:
                     if B.observe(o) != s_ or o.__dict__.get("alias") != (al if al is not None else o.__dict__.get("alias")):
-                        leaks.append(dict(where, what="an explicitly aliased argument (or a statement built earlier around it) changed"))
+                        leaks.append(dict(where, what="an argument object (or a statement built earlier around it) changed"))
                         break
     # independence of continuations: what r.m(x) is does not depend on which sibling continuations of r were made before it
     for cls, name in B.discover():
